@@ -500,17 +500,28 @@ fn build(prop: &str, tier: &str) -> Icy {
             if valid(&d) {
                 jobs.push(Job::Doc(d, a.name.to_string()));
             }
-            for b in ds.iter().skip(i + 1) {
+            for (j, b) in ds.iter().enumerate().skip(i + 1) {
                 for vb in 0..b.n {
-                    // pairs: the two 32-value flag dimensions are only paired with small dimensions in the quick tier
-                    if !thorough && a.n * b.n > 200 {
-                        continue;
-                    }
                     let mut d = DSpec::base();
                     (a.apply)(&mut d, va);
                     (b.apply)(&mut d, vb);
                     if valid(&d) && !(d.w * d.h > 5000 && d.layers.iter().any(|l| l.w * l.h > 5000)) {
                         jobs.push(Job::Doc(d, format!("{} x {}", a.name, b.name)));
+                    }
+                    // triples: all of them in the thorough tier, those with <= 100 combinations in the quick tier
+                    for c in ds.iter().skip(j + 1) {
+                        if !thorough && a.n * b.n * c.n > 100 {
+                            continue;
+                        }
+                        for vc in 0..c.n {
+                            let mut d = DSpec::base();
+                            (a.apply)(&mut d, va);
+                            (b.apply)(&mut d, vb);
+                            (c.apply)(&mut d, vc);
+                            if valid(&d) && d.w * d.h <= 5000 && d.layers.iter().all(|l| l.w * l.h <= 5000) {
+                                jobs.push(Job::Doc(d, format!("{} x {} x {}", a.name, b.name, c.name)));
+                            }
+                        }
                     }
                 }
             }
